@@ -162,6 +162,44 @@ def boundary_core():
     return out
 
 
+def scale_cases(rng, tier):
+    """SCALE families (judged by the cross-checked Python transcription).
+    scale-stream: files of several MiB (beyond any I/O block size) with subsampling > 1 - the row ids of every batch are
+    compared; scale-history: one run whose accumulated triplet history crosses 2**16 rows, with even and odd batch counts
+    on both sides - every checkpoint and the final table against the exact median of the recorded per-batch scores.
+    The quick-tier files are fixed (independent of VERIF_SEED); thorough adds varied ones, gzip and CRLF."""
+    c4 = ["id", "f1", "f2", "label"]
+    out = [
+        {"B": 4000, "s": 3, "cols": c4, "heuristic": "max-value-coverage", "target_only": "True", "seed": 21,
+         "segments": [[36000, 4, 0]], "entry": "direct", "pad": 60, "trailing_newline": True, "crlf": False,
+         "family": "scale-stream"},
+        {"B": 3000, "s": 5, "cols": ["id", "f1", "label"], "heuristic": "max-value-coverage", "target_only": "True", "seed": 22,
+         "segments": [[9000, 3, 0], [2, 2, 0], [14000, 3, 0], [1, 0, 0], [1, 5, 0], [17000, 3, 0]], "entry": "task", "pad": 52,
+         "trailing_newline": True, "crlf": False, "family": "scale-stream"},
+        {"B": 150, "s": 2, "cols": ["id"] + ["f%d" % i for i in range(1, 39)] + ["label"], "heuristic": "max-value-coverage",
+         "target_only": "False", "seed": 23, "segments": [[13200, 40, 0]], "entry": "task", "trailing_newline": True, "crlf": False,
+         "family": "scale-history"},
+    ]
+    if tier == "thorough":
+        for k in range(6):
+            s = [2, 3, 5, 7, 2, 3][k]
+            n = rng.randint(30000, 60000)
+            segs = [[n // 2, 4, 0], [rng.randint(1, 3), 3, 0], [n - n // 2, 4, 0]]
+            out.append({"B": rng.choice([2500, 4000, 7000]), "s": s, "cols": c4, "heuristic": "max-value-coverage",
+                        "target_only": "True", "seed": rng.randint(0, 10 ** 6), "segments": segs, "entry": "direct",
+                        "pad": rng.randint(40, 90), "trailing_newline": k % 2 == 0, "crlf": k in (1, 4), "gzip": k in (2, 4),
+                        "family": "scale-stream"})
+        out.append({"B": 8, "s": 1, "cols": ["id"] + ["f%d" % i for i in range(1, 15)] + ["label"],
+                    "heuristic": "max-value-coverage", "target_only": "False", "seed": rng.randint(0, 10 ** 6),
+                    "segments": [[8 * 260 + 3, 16, 0]], "entry": "task", "trailing_newline": True, "crlf": False,
+                    "family": "scale-history"})
+        out.append({"B": 150, "s": 1, "cols": ["id"] + ["f%d" % i for i in range(1, 39)] + ["label"],
+                    "heuristic": "MI-numba-randomized", "target_only": "False", "seed": rng.randint(0, 10 ** 6),
+                    "segments": [[150 * 43, 40, 0]], "entry": "direct", "trailing_newline": True, "crlf": False,
+                    "family": "scale-history"})
+    return out
+
+
 def load_corpus(pid):
     d = os.path.join(vlib.VERIF, "corpus", pid)
     out = []
@@ -260,22 +298,155 @@ class Enc:
         return out
 
 
-def coq_case(case, res, enc):
-    ncols = len(case["cols"])
-    segs = "[" + "; ".join("(%d%%N, %d%%nat)" % (c, nf) for c, nf, _ in case["segments"]) + "]"
+def encode_case(case, res, enc):
+    """The data both evaluators receive (all integers): configuration, run-length coded lines, recorded triplets per batch
+    keyed by the batch's first id, and the implementation's observables (tables doubled, as the model computes median2)."""
+    def rows(trip, mult=1):
+        return [((enc.ids[a], enc.ids[b]), enc.z(sc, mult)) for a, b, sc in trip]
     krows = []
     for b in res["batches"]:
         if b["ids"] and b.get("triplets") is not None:
-            krows.append("(%d%%N, %s)" % (parse_id(b["ids"][0]), enc.rows(b["triplets"])))
-    k = "(mkcase (mkcfg %d %d%%N %d tail_min) %s [%s])" % (case["B"], case["s"], ncols, segs, "; ".join(krows))
-    ob = "[" + "; ".join("[" + "; ".join("%d" % parse_id(i) for i in b["ids"]) + "]%N" for b in res["batches"]) + "]"
+            krows.append((parse_id(b["ids"][0]), rows(b["triplets"])))
     inv = res.get("invalid_logged") or []
     oi = inv[0] if len(inv) == 1 and inv[0] >= 0 else (0 if not inv else 10 ** 6)
-    ck = impl_checkpoints(res)
-    oc = "[" + "; ".join(enc.rows(t or [], 2) for t in ck) + "]"
     final = res.get("pairwise") if case.get("entry", "task") == "task" else sorted(res.get("grouped") or [], key=lambda t: t[2])
-    of = enc.rows(final or [], 2)
-    return "C08_eval %s (%s, %d%%nat, %s, %s)" % (k, ob, oi, oc, of)
+    return {"B": case["B"], "s": case["s"], "ncols": len(case["cols"]), "tail": TAIL_MIN,
+            "segs": [(c, nf) for c, nf, _ in case["segments"]], "krows": krows,
+            "ob": [[parse_id(i) for i in b["ids"]] for b in res["batches"]], "oi": oi,
+            "oc": [rows(tb or [], 2) for tb in impl_checkpoints(res)], "of": rows(final or [], 2)}
+
+
+def coq_rows(rows):
+    return "[" + "; ".join("((%d, %d)%%N, %s%%Z)" % (k[0], k[1], vlib.zlit(z)) for k, z in rows) + "]"
+
+
+def coq_case(e):
+    segs = "[" + "; ".join("(%d%%N, %d%%nat)" % (c, nf) for c, nf in e["segs"]) + "]"
+    krows = "; ".join("(%d%%N, %s)" % (fid, coq_rows(r)) for fid, r in e["krows"])
+    k = "(mkcase (mkcfg %d %d%%N %d tail_min) %s [%s])" % (e["B"], e["s"], e["ncols"], segs, krows)
+    ob = "[" + "; ".join("[" + "; ".join("%d" % i for i in b) + "]%N" for b in e["ob"]) + "]"
+    oc = "[" + "; ".join(coq_rows(tb) for tb in e["oc"]) + "]"
+    return "C08_eval %s (%s, %d%%nat, %s, %s)" % (k, ob, e["oi"], oc, coq_rows(e["of"]))
+
+
+# ---------------------------------------------------------------------------------------------------------------
+# Python transcription of coq/Pipeline/Stream.v, Aggregate.v, C08Model.v.  It judges the SCALE families (files and
+# triplet histories too large for vm_compute in the quick tier); on every small file of the same run its complete
+# output is compared with what `C08_eval` prints in Coq (obligation "transcription = C08_eval").
+
+def py_decode_lines(segs):                                   # decode_lines
+    out = []
+    k = 1
+    for cnt, nf in segs:
+        for _ in range(cnt):
+            out.append((k, nf))
+            k += 1
+    return out
+
+
+def py_median2(l):                                           # Common/Median.v median2
+    s = sorted(l)
+    n = len(s)
+    if n == 0:
+        return 0
+    return s[n // 2 - 1] + s[n // 2] if n % 2 == 0 else 2 * s[n // 2]
+
+
+def py_aggregate(rows):                                      # aggregate: distinct keys in key order, median2 of their scores
+    groups = {}
+    for k, z in rows:
+        groups.setdefault(k, []).append(z)
+    return [(k, py_median2(groups[k])) for k in sorted(groups)]
+
+
+def py_final_sort(table):                                    # stable, ascending in score
+    return sorted(table, key=lambda r: r[1])
+
+
+def py_stream(B, s, ncols, tail, lines, score, agg):         # sstep / run / finish
+    counter, buf, emitted, invalid, acc, ckpts = 0, [], [], 0, [], []
+
+    def flush(b):
+        nonlocal buf, acc
+        acc = acc + score(b)
+        buf = []
+        emitted.append(b)
+        ckpts.append(agg(acc))
+    for l in lines:
+        counter += 1
+        if counter % s != 0:
+            continue
+        if l[1] == ncols:
+            buf.append(l)
+        else:
+            invalid += 1
+        if B <= len(buf):
+            flush(buf)
+    if tail < len(buf):
+        flush(buf[:B])
+    return emitted, invalid, acc, ckpts
+
+
+def py_reference_batches(B, s, ncols, tail, lines):          # selected / good / chunks / reference_batches
+    selected = [l for pos, l in enumerate(lines, start=1) if pos % s == 0]
+    good = [l for l in selected if l[1] == ncols]
+    full = []
+    rest = good
+    while B <= len(rest):
+        full.append(rest[:B])
+        rest = rest[B:]
+    return full + ([rest] if tail < len(rest) else []), len(selected) - len(good)
+
+
+def py_close2(a, b):
+    return abs(a - b) * 10 ** 12 <= max(abs(a), abs(b))
+
+
+def py_table_close(t1, t2):
+    c1 = sorted(t1, key=lambda r: (r[0], r[1]))
+    c2 = sorted(t2, key=lambda r: (r[0], r[1]))
+    return len(c1) == len(c2) and all(x[0] == y[0] and py_close2(x[1], y[1]) for x, y in zip(c1, c2))
+
+
+def py_eval(e, light=False):
+    """Same shape as the term `C08_eval` prints: (loop model batches = impl batches, model invalid count, model checkpoints,
+    model final table, (v_batches, v_invalid, v_nckpt, v_ckpts, v_sorted, v_final)).  light=True skips the aggregation
+    inside the loop model (the model checkpoints/final are then taken from the reference side, which C08_model_spec
+    proves equal)."""
+    tbl = {}
+    for fid, r in e["krows"]:
+        tbl.setdefault(fid, r)
+
+    def score(b):
+        return list(tbl.get(b[0][0], [])) if b else []
+    lines = py_decode_lines(e["segs"])
+    emitted, m_inv, acc, ckpts = py_stream(e["B"], e["s"], e["ncols"], e["tail"], lines, score,
+                                           (lambda rows: None) if light else py_aggregate)
+    ref, ref_inv = py_reference_batches(e["B"], e["s"], e["ncols"], e["tail"], lines)
+    ref_ids = [[l[0] for l in b] for b in ref]
+    v_batches = e["ob"] == ref_ids
+    v_invalid = e["oi"] == ref_inv
+    v_nckpt = len(e["oc"]) == len(ref)
+    v_ckpts = []
+    groups = {}
+    ref_ckpts = []
+    for j, b in enumerate(ref):                               # aggregate (concat (map score (firstn (S j) ref))), incrementally
+        for k, z in score(b):
+            groups.setdefault(k, []).append(z)
+        want = [(k, py_median2(groups[k])) for k in sorted(groups)]
+        ref_ckpts.append(want)
+        v_ckpts.append(py_table_close(want, e["oc"][j] if j < len(e["oc"]) else []))
+    want_all = ref_ckpts[-1] if ref_ckpts else []
+    zs = [z for _, z in e["of"]]
+    v_sorted = all(zs[i] <= zs[i + 1] for i in range(len(zs) - 1))
+    v_final = py_table_close(want_all, e["of"])
+    if light:
+        m_ckpts, m_final = ref_ckpts, py_final_sort(want_all)
+    else:
+        m_ckpts, m_final = ckpts, py_final_sort(py_aggregate(acc))
+    enc_t = lambda tb: [(k[0], k[1], z) for k, z in tb]       # noqa: E731
+    return ([[l[0] for l in b] for b in emitted] == e["ob"], m_inv, [enc_t(c) for c in m_ckpts], enc_t(m_final),
+            (v_batches, v_invalid, v_nckpt, v_ckpts, v_sorted, v_final))
 
 
 def impl_checkpoints(res):
@@ -320,10 +491,23 @@ HEADER = ("From Coq Require Import List NArith ZArith.\n"
           "Import ListNotations.")
 
 
+def is_scale(case):
+    return str(case.get("family", "")).startswith("scale")
+
+
+def canon_val(v):
+    """Coq terms come back as nested tuples/lists of ints and bools; normalise both sides for comparison."""
+    if isinstance(v, (list, tuple)):
+        return [canon_val(x) for x in v]
+    return v
+
+
 def evaluate(run, cases, results):
-    """Returns a list of (case index, verdict dict or None, detail)."""
-    exprs, idx, encs = [], [], {}
+    """Returns {case index: (kind, value, enc)}; kind 'evaluated' carries the C08_eval-shaped value.  Small files are
+    evaluated in Coq AND by the Python transcription (their outputs must coincide); scale files by the transcription."""
+    exprs, idx, encs, encoded = [], [], {}, {}
     out = {}
+    stats = {"small_files_cross_checked": 0, "transcription_disagrees": [], "scale_files": 0}
     for i, (c, r) in enumerate(zip(cases, results)):
         if not r.get("ok"):
             out[i] = ("impl-error", r.get("error"), None)
@@ -333,12 +517,21 @@ def evaluate(run, cases, results):
             out[i] = ("non-finite", None, None)
             continue
         encs[i] = enc
-        exprs.append(coq_case(c, r, enc))
-        idx.append(i)
-    vals = vlib.coq_eval("C08", HEADER, exprs, shard=max(1, (len(exprs) + 11) // 12))
+        encoded[i] = encode_case(c, r, enc)
+        if is_scale(c):
+            stats["scale_files"] += 1
+            out[i] = ("evaluated", py_eval(encoded[i], light=True), enc)
+        else:
+            exprs.append(coq_case(encoded[i]))
+            idx.append(i)
+    vals = vlib.coq_eval("C08", HEADER, exprs, shard=max(1, (len(exprs) + 11) // 12)) if exprs else []
     for i, v in zip(idx, vals):
         out[i] = ("evaluated", v, encs[i])
-    return out
+        pv = py_eval(encoded[i])
+        stats["small_files_cross_checked"] += 1
+        if canon_val(pv) != canon_val(v) or canon_val(py_eval(encoded[i], light=True)) != canon_val(v):
+            stats["transcription_disagrees"].append(i)
+    return out, stats
 
 
 def judge(case, res, val, enc):
@@ -349,11 +542,21 @@ def judge(case, res, val, enc):
     ref = py_reference(case)
     sizes = [len(b["ids"]) for b in res["batches"]]
     if not v_batches:
+        want = ref["consumed_ids"]
+        got_b = [[parse_id(x) for x in b["ids"]] for b in res["batches"]]
+        where = "batch counts differ"
+        for bi, gb in enumerate(got_b):
+            wb = want[bi * case["B"]:(bi + 1) * case["B"]]
+            if gb != wb:
+                pos = next((p for p in range(min(len(gb), len(wb))) if gb[p] != wb[p]), min(len(gb), len(wb)))
+                where = "first wrong batch %d, position %d: implementation row %s, reference row %s" % (
+                    bi + 1, pos, "r%d" % gb[pos] if pos < len(gb) else "(none)", "r%d" % wb[pos] if pos < len(wb) else "(none)")
+                break
         fails.append(("consumed rows / mini-batch boundaries / tail rule",
-                      "implementation scored batches of sizes %s (first ids %s); reference semantics: %d accepted rows -> %d full "
-                      "batches of %d and a remainder of %d (%s)" % (
-                          sizes, [b["ids"][:1] for b in res["batches"]], ref["good"], ref["full"], case["B"], ref["rest"],
-                          "used" if ref["tail_used"] else "not used")))
+                      "implementation scored %d batches of sizes %s (first ids %s); reference semantics: %d accepted rows -> %d full "
+                      "batches of %d and a remainder of %d (%s); %s" % (
+                          len(sizes), sizes[:12], [b["ids"][:1] for b in res["batches"]][:12], ref["good"], ref["full"], case["B"],
+                          ref["rest"], "used" if ref["tail_used"] else "not used", where)))
     if not v_invalid:
         fails.append(("skipped rows are counted", "implementation logged %s invalid lines, reference %d" % (
             res.get("invalid_logged"), m_inv)))
@@ -440,6 +643,8 @@ def check(run, replay):
 
     if replay is not None:
         cases = [replay["case"]]
+        if is_scale(replay["case"]):          # the transcription that judges it is cross-checked on the small corpus files
+            cases += load_corpus("C08")
     else:
         cases = load_corpus("C08")
         n = 72 if run.tier == "quick" else 1200
@@ -448,14 +653,24 @@ def check(run, replay):
             cases.append(gen_case(run.rng, fams[i % len(fams)] if i < 18 else None))
         if fallback:
             cases.extend(boundary_core())
+        cases.extend(scale_cases(run.rng, run.tier))
         if run.tier == "thorough":
             cases.extend(boundary_grid())
             cases.extend(small_scope())
             run.cov["exhaustive_small_scope"] = "all good/malformed layouts of <= 5 lines, B in 1..3, s in 1..2 (378 files) included"
     root = os.path.join(vlib.CACHE, "c08", str(os.getpid()))
     results = vlib.run_impl("impl_c08.py", {"cases": cases, "root": root})["results"]
-    ev = evaluate(run, cases, results)
-    run.oblige("correspondence:batches/invalid/checkpoints/final table vs reference semantics (C08_check in Coq)", True)
+    ev, stats = evaluate(run, cases, results)
+    run.oblige("Python transcription of the model/checker = C08_eval in Coq on all %d small files of this run "
+               "(it judges the %d scale files)" % (stats["small_files_cross_checked"], stats["scale_files"]),
+               not stats["transcription_disagrees"] and (stats["small_files_cross_checked"] > 0 or stats["scale_files"] == 0),
+               "" if not stats["transcription_disagrees"] else "differs on files %s" % stats["transcription_disagrees"][:10])
+    if stats["transcription_disagrees"]:
+        run.violation("broken-obligation", "harness: Python transcription disagrees with C08_eval", found_input=False,
+                      extra={"case": cases[stats["transcription_disagrees"][0]]})
+    run.cov["scale"] = stats
+    run.oblige("correspondence:batches/invalid/checkpoints/final table vs reference semantics (C08_check in Coq; "
+               "scale files by the cross-checked transcription)", True)
 
     hist = {"family": {}, "B": {}, "s": {}, "batches": {}, "rest_near_tail": {}, "bad_selected": 0, "entry": {},
             "heuristic": {}, "nlines_max": 0, "impl_errors": 0, "model_loop_differs_from_impl_batches": 0, "non_finite": 0}
@@ -499,11 +714,11 @@ def check(run, replay):
     if failing and replay is None:
         # one round of shrinking on the first failing case
         i0, f0 = failing[0]
-        vs = shrink_variants(cases[i0])
+        vs = [] if is_scale(cases[i0]) else shrink_variants(cases[i0])
         if vs:
             try:
                 r2 = vlib.run_impl("impl_c08.py", {"cases": vs, "root": root + "_s"})["results"]
-                ev2 = evaluate(run, vs, r2)
+                ev2, _ = evaluate(run, vs, r2)
                 best = None
                 for j, (c2, rr) in enumerate(zip(vs, r2)):
                     kind, val, enc = ev2[j]
